@@ -82,6 +82,47 @@ def builtin_tables(check: Check, repo: Repo) -> None:
     check.oblige("BUILTIN-TABLE", "src/pest/grammar/rules/special.py::_Any.parse", "ANY consumes exactly one code point whenever one is left" if ok else "ANY is not 'one code point if any is left'", ok)
 
 
+def _flag_names(e: ast.AST) -> set[str] | None:
+    """re.I | re.X ... -> {"I", "X"}; None if not a plain union of re flags."""
+    if isinstance(e, ast.BinOp) and isinstance(e.op, ast.BitOr):
+        a, b = _flag_names(e.left), _flag_names(e.right)
+        return None if a is None or b is None else a | b
+    if isinstance(e, ast.Attribute) and isinstance(e.value, ast.Name) and e.value.id in ("re", "regex"):
+        return {{"IGNORECASE": "I", "MULTILINE": "M", "DOTALL": "S", "VERBOSE": "X", "UNICODE": "U", "ASCII": "A", "V1": "VERSION1", "V0": "VERSION0", "F": "FULLCASE"}.get(e.attr, e.attr)}
+    if isinstance(e, ast.Constant) and e.value == 0:
+        return set()
+    return None
+
+
+def ci_string_facts(check: Check, repo: Repo) -> None:
+    """CASE: a `^"..."` literal is its escaped text matched with simple case folding (re.I and nothing else);
+    advancing by len(value) instead of the match end is right only because that folding is one-to-one."""
+    init = repo.func(TERMINALS, "CIString.__init__")
+    construct = f"{TERMINALS}::CIString.__init__"
+    compiles = [n for n in ast.walk(init) if isinstance(n, ast.Call) and ast.unparse(n.func) in ("re.compile", "regex.compile")]
+    if len(compiles) != 1:
+        raise AnalysisError(f"anchor vanished: {construct} compiles {len(compiles)} patterns")
+    c = compiles[0]
+    pat = c.args[0] if c.args else None
+    flags_e = c.args[1] if len(c.args) > 1 else next((k.value for k in c.keywords if k.arg == "flags"), None)
+    ok = isinstance(pat, ast.Call) and ast.unparse(pat.func) in ("re.escape", "regex.escape") and ast.unparse(pat.args[0]) in ("value", "self.value")
+    check.oblige("CASE", construct, "the pattern is re.escape(value)" if ok else "CIString does not compile the escaped literal", ok,
+                 finding=Finding("CASE", construct, "CIString does not compile the escaped literal", f"pattern argument is `{ast.unparse(pat) if pat is not None else None}`", {}))
+    flags = _flag_names(flags_e) if flags_e is not None else set()
+    if flags is None:
+        raise AnalysisError(f"{construct}: flags `{ast.unparse(flags_e)}` are not a plain union of re flags")
+    ok = flags == {"I"}
+    sig = "CIString is not compiled with exactly re.I"
+    check.oblige("CASE", construct, "flags are exactly re.I (simple, one-to-one case folding)" if ok else sig, ok,
+                 finding=Finding("CASE", construct, sig, f"flags {sorted(flags)}: without re.I case is not ignored; with VERSION1/FULLCASE a literal matches text of another length (\"strasse\" ~ \"Stra\u00dfe\"), and the interpreter advances by len(value)", {"flags": sorted(flags)}))
+    parse = repo.func(TERMINALS, "CIString.parse")
+    adv = [n for n in ast.walk(parse) if isinstance(n, (ast.AugAssign, ast.Assign)) and "state.pos" in ast.unparse(n.target if isinstance(n, ast.AugAssign) else n.targets[0])]
+    texts = [ast.unparse(n) for n in adv]
+    ok = bool(adv) and all(t in ("state.pos += len(self.value)", "state.pos = match.end()", "state.pos = m.end()", "state.pos += len(match.group())", "state.pos += len(match.group(0))") for t in texts)
+    check.oblige("CASE", f"{TERMINALS}::CIString.parse", "advances by the literal's length (= match length under simple folding) or to the match end" if ok else "CIString.parse advances by something other than the matched text", ok,
+                 finding=Finding("CASE", f"{TERMINALS}::CIString.parse", "CIString.parse advances by something other than the matched text", f"advance statements: {texts}", {}))
+
+
 def range_and_case(check: Check, repo: Repo) -> None:
     pat = repo.method_or_none(TERMINALS, "Range", "_pattern")
     if pat is not None:
@@ -92,12 +133,7 @@ def range_and_case(check: Check, repo: Repo) -> None:
         gen = ast.unparse(repo.func(TERMINALS, "Range.generate"))
         ok = "re.compile(self._pattern())" in init and "self._pattern()" in gen
         check.oblige("RANGE", f"{TERMINALS}::Range", "parse() and generate() derive their pattern from the same method" if ok else "Range.__init__/generate no longer share _pattern()", ok)
-    ci = ast.unparse(repo.func(TERMINALS, "CIString.__init__"))
-    ok = "re.compile(re.escape(value), re.I)" in ci
-    check.oblige("CASE", f"{TERMINALS}::CIString.__init__", "case-insensitive literals compile re.escape(value) with re.I" if ok else "CIString no longer compiles re.escape(value) with re.I", ok)
-    cp = ast.unparse(repo.func(TERMINALS, "CIString.parse"))
-    ok = "state.pos += len(self.value)" in cp or "state.pos = match.end()" in cp
-    check.oblige("CASE", f"{TERMINALS}::CIString.parse", "advances by the matched literal" if ok else "CIString.parse advance changed", ok)
+    ci_string_facts(check, repo)
     st = ast.unparse(repo.func(TERMINALS, "String.parse"))
     ok = "re.I" not in st and "lower()" not in st and "upper()" not in st and "casefold" not in st
     check.oblige("CASE", f"{TERMINALS}::String.parse", "sensitive literals are compared exactly" if ok else "String.parse folds case", ok)
@@ -186,9 +222,82 @@ def cursor(check: Check, repo: Repo) -> None:
     check.oblige("CURSOR", f"{UNESCAPE}::unescape_string", "decoded and plain characters are appended in order" if ok else "unescape_string no longer appends decoded/plain characters", ok)
 
 
+def unescape_once(check: Check, repo: Repo) -> None:
+    """UNESCAPE-ONCE: the text of a literal is decoded exactly once between the grammar text and the expression."""
+    sc_rel, pa_rel = "src/pest/grammar/scanner.py", "src/pest/grammar/parser.py"
+    kinds = ("STRING", "STRING_CI", "CHAR")
+    scanner_decodes = dict.fromkeys(kinds, False)
+    emits = dict.fromkeys(kinds, 0)
+    for fn in [n for n in ast.walk(repo.mod(sc_rel).tree) if isinstance(n, ast.FunctionDef)]:
+        decoded_names = {t.id for n in ast.walk(fn) if isinstance(n, ast.Assign) and isinstance(n.value, ast.Call) and ast.unparse(n.value.func) == "unescape_string" for t in n.targets if isinstance(t, ast.Name)}
+        for c in ast.walk(fn):
+            if isinstance(c, ast.Call) and ast.unparse(c.func) == "self.emit" and len(c.args) == 2:
+                k = ast.unparse(c.args[0]).replace("TokenKind.", "")
+                if k in kinds:
+                    emits[k] += 1
+                    a = c.args[1]
+                    if (isinstance(a, ast.Name) and a.id in decoded_names) or any(isinstance(x, ast.Call) and ast.unparse(x.func) == "unescape_string" for x in ast.walk(a)):
+                        scanner_decodes[k] = True
+    for k in kinds:
+        if not emits[k]:
+            raise AnalysisError(f"anchor vanished: {sc_rel} emits no {k} token")
+    pm = repo.mod(pa_rel)
+    parser_calls = dict.fromkeys(kinds, 0)
+    eats = dict.fromkeys(kinds, 0)
+    nested = 0
+    for fn in [n for n in ast.walk(pm.tree) if isinstance(n, ast.FunctionDef)]:
+        bound: dict[str, str] = {}
+        for n in ast.walk(fn):
+            if isinstance(n, ast.Assign) and isinstance(n.targets[0], ast.Name) and isinstance(n.value, ast.Call) and ast.unparse(n.value.func) == "self.eat" and n.value.args:
+                bound[n.targets[0].id] = ast.unparse(n.value.args[0]).replace("TokenKind.", "")
+        for n in ast.walk(fn):
+            if isinstance(n, ast.Call) and ast.unparse(n.func) == "self.eat" and n.args:
+                k = ast.unparse(n.args[0]).replace("TokenKind.", "")
+                if k in kinds:
+                    eats[k] += 1
+            if not (isinstance(n, ast.Call) and ast.unparse(n.func) == "unescape_string" and n.args):
+                continue
+            arg = n.args[0]
+            if any(isinstance(x, ast.Call) and ast.unparse(x.func) == "unescape_string" for x in ast.walk(arg)):
+                nested += 1
+            k = None
+            for x in ast.walk(arg):
+                if isinstance(x, ast.Call) and ast.unparse(x.func) == "self.eat" and x.args:
+                    k = ast.unparse(x.args[0]).replace("TokenKind.", "")
+                elif isinstance(x, ast.Name) and x.id in bound:
+                    k = bound[x.id]
+            if k is None:
+                # `self.next().value` inside the branch of `left_kind == TokenKind.K`
+                cur: ast.AST | None = n
+                while cur is not None and k is None:
+                    par = pm.parents.get(cur)
+                    if isinstance(par, ast.If) and cur in par.body:
+                        for y in ast.walk(par.test):
+                            if isinstance(y, ast.Attribute) and isinstance(y.value, ast.Name) and y.value.id == "TokenKind" and y.attr in kinds:
+                                k = y.attr
+                    cur = par
+            if k is None:
+                raise AnalysisError(f"{pa_rel}::{fn.name}: cannot tell which token kind `{ast.unparse(n)[:60]}` decodes")
+            parser_calls[k] += 1
+    for k in kinds:
+        construct = f"{pa_rel}::TokenKind.{k}"
+        if scanner_decodes[k]:
+            ok = parser_calls[k] == 0
+            sig = f"{k} text is unescaped by the scanner and again by the parser"
+            good = f"{k}: decoded once, by the scanner"
+        else:
+            ok = parser_calls[k] > 0 and parser_calls[k] >= eats[k]
+            sig = f"{k} text reaches an expression without being unescaped"
+            good = f"{k}: decoded once, by the parser ({parser_calls[k]} sites)"
+        check.oblige("UNESCAPE-ONCE", construct, good if ok else sig, ok, sample=True,
+                     finding=Finding("UNESCAPE-ONCE", construct, sig, f"{sig}: scanner decodes={scanner_decodes[k]}, parser unescape calls={parser_calls[k]}, eat sites={eats[k]}; a literal such as \"\\\\n\" then denotes a different text than in pest", {}))
+        check.count("unescape_paths")
+    check.oblige("UNESCAPE-ONCE", f"{pa_rel}", "no nested unescape_string(unescape_string(...))" if not nested else "unescape_string is applied to its own result", not nested)
+
+
 def run(tier: str) -> Check:
     check = Check("C12", tier, EXPLANATION)
-    check.rules = ["BUILTIN-TABLE", "RANGE", "CASE", "CONST-PARITY", "PATTERN-FRAGMENT", "MERGE", "ESCAPE-TABLE", "CURSOR"]
+    check.rules = ["BUILTIN-TABLE", "RANGE", "CASE", "CONST-PARITY", "PATTERN-FRAGMENT", "MERGE", "ESCAPE-TABLE", "CURSOR", "UNESCAPE-ONCE"]
     check.assumptions = [
         "the regex engine's own Unicode tables (\\p{...}) and its handling of escaped characters inside classes are trusted",
         "pest's built-in definitions are frozen in the checker from the pest book ('Built-in rules')",
@@ -204,6 +313,8 @@ def run(tier: str) -> Check:
 
     escape_tables(check, repo, pestlang.read_pest(repo.read(META), META))
     cursor(check, repo)
+    unescape_once(check, repo)
+    check.floor("unescape_paths", 3)
     check.floor("builtin_entries", 11)
     check.floor("cursor_paths", 8)
     check.floor("pattern_fragments", 8)
